@@ -160,19 +160,20 @@ def _overlay(db, chk, cp):
     rule = "C20.R2-marker-and-flow"
     f = cp.func("CriticalPathAnalysis.overlay_critical_path_analysis")
     where = cp.loc(f)
+    al = _aliases(f)
     # marker loop
     loops = [n for n in walk_no_nested(f) if isinstance(n, ast.For) and isinstance(n.iter, ast.Call) and H.name_id(n.iter.func) == "enumerate"]
     okm = False
     det = []
     for lp in loops:
         det.append(ast.unparse(lp)[:200])
-        if H.name_id(lp.iter.args[0]) == "raw_events" and len(lp.iter.args) == 1 and not lp.iter.keywords and isinstance(lp.target, ast.Tuple):
+        src_ok = len(lp.iter.args) == 1 and not lp.iter.keywords and isinstance(lp.target, ast.Tuple) and len(lp.target.elts) == 2 and \
+            _root_chain(lp.iter.args[0])[0] in al and al[_root_chain(lp.iter.args[0])[0]][1] + _root_chain(lp.iter.args[0])[1] == ["traceEvents"]
+        if src_ok:
             i, ev = (H.name_id(x) for x in lp.target.elts)
             body = lp.body
-            if len(body) == 1 and isinstance(body[0], ast.If):
-                t = ast.unparse(body[0].test).replace(" ", "")
-                st = [ast.unparse(s).replace(" ", "") for s in body[0].body]
-                okm = t == f"{i}incritical_path_graph.critical_path_events_set" and st == [f"{ev}['args']['critical']=1"] and not body[0].orelse
+            if len(body) == 1 and isinstance(body[0], ast.If) and not body[0].orelse and len(body[0].body) == 1:
+                okm = H.match(f"{i} in critical_path_graph.critical_path_events_set", body[0].test) is not None and H.match(f"{ev}['args']['critical'] = 1", body[0].body[0]) is not None
     chk.ob(rule, "marker loop: event number i (position in traceEvents, from 0) is marked critical iff i is in the critical path's event set", okm, where, found=det,
            accepted="for ev_idx, event in enumerate(raw_events): if ev_idx in critical_path_graph.critical_path_events_set: event['args']['critical'] = 1",
            why="event ids are positions in the file's event list (C01): another start offset marks the neighbours")
@@ -183,8 +184,10 @@ def _overlay(db, chk, cp):
     if len(iff) == 1:
         els = iff[0].orelse
         det2 = [ast.unparse(s)[:160] for s in els]
-        ok_src = len(els) == 1 and isinstance(els[0], ast.Assign) and H.name_id(els[0].targets[0]) == "edges" and isinstance(els[0].value, ast.GeneratorExp) and not els[0].value.generators[0].ifs \
-            and ast.unparse(els[0].value.generators[0].iter) == "critical_path_graph.critical_path_edges_set" and ast.unparse(els[0].value.elt) == H.name_id(els[0].value.generators[0].target)
+        ok_src = len(els) == 1 and (H.match("$edges = ($e for $e in critical_path_graph.critical_path_edges_set)", els[0]) is not None or
+                                    H.match("$edges = critical_path_graph.critical_path_edges_set", els[0]) is not None or
+                                    H.match("$edges = list(critical_path_graph.critical_path_edges_set)", els[0]) is not None)
+        edges_var = H.name_id(els[0].targets[0]) if ok_src else None
         zero_filters = [n for n in walk_no_nested(f) if isinstance(n, ast.Call) and "_is_zero_weight_launch_edge" in ast.unparse(n.func)]
         inside = all(any(z is x for b in iff[0].body for x in ast.walk(b)) for z in zero_filters)
         ok_src = ok_src and inside
@@ -192,18 +195,18 @@ def _overlay(db, chk, cp):
     chk.ob(rule, "edges drawn when not showing all edges = exactly the critical path's edges (the zero-weight launch filter applies to the show-all view only)", ok_src if len(iff) == 1 else None, where,
            found=det2, accepted="edges = (e for e in critical_path_graph.critical_path_edges_set)", why="filtering the critical edges leaves a critical launch edge of weight 0 without its flow pair")
     # flow pair per edge
-    lp = [n for n in walk_no_nested(f) if isinstance(n, ast.For) and H.name_id(n.iter) == "edges"]
+    lp = [n for n in walk_no_nested(f) if isinstance(n, ast.For) and isinstance(n.iter, ast.Name) and isinstance(n.target, ast.Name) and
+          any(isinstance(c, ast.Call) and H.name_id(c.func) == "get_flow_event" for c in ast.walk(n))]
     okp = False
     det3 = []
     if len(lp) == 1:
-        body = lp[0].body
-        txt = [ast.unparse(s).replace(" ", "") for s in body if not isinstance(s, ast.If)]
-        det3 = txt
+        body = [s_ for s_ in lp[0].body if not isinstance(s_, ast.If)]
+        det3 = [ast.unparse(s_)[:110] for s_ in body]
         ev = H.name_id(lp[0].target)
-        okp = f"u,v=({ev}.begin,{ev}.end)" in txt and f"start_ev_id,end_ev_id=critical_path_graph.get_events_for_edge({ev})" in txt and \
-            "start_ev,end_ev=(raw_events[start_ev_id],raw_events[end_ev_id])" in txt and \
-            f"flow_events.append(get_flow_event(u,start_ev,{ev},flow_id,is_start=True))" in txt and f"flow_events.append(get_flow_event(v,end_ev,{ev},flow_id,is_start=False))" in txt and \
-            txt.count("flow_id+=1") == 1 and txt.index("flow_id+=1") > txt.index(f"flow_events.append(get_flow_event(v,end_ev,{ev},flow_id,is_start=False))")
+        r = H.match_seq([f"$u, $v = ({ev}.begin, {ev}.end)", f"$s, $t = critical_path_graph.get_events_for_edge({ev})", "$se, $te = (raw_events[$s], raw_events[$t])".replace("raw_events", "$raw"),
+                         f"$fl.append(get_flow_event($u, $se, {ev}, $fid, is_start=True))", f"$fl.append(get_flow_event($v, $te, {ev}, $fid, is_start=False))", "$fid += 1"], body)
+        n_inc = [s_ for s_ in ast.walk(lp[0]) if isinstance(s_, ast.AugAssign)]
+        okp = r is not None and len(n_inc) == 1 and r["__mv_raw"] in al and al[r["__mv_raw"]][1] == ["traceEvents"]
     chk.ob(rule, "per drawn edge: one start and one end flow event with the same id, built from (begin node, event of begin node) and (end node, event of end node); id advanced once per edge", okp if len(lp) == 1 else None, where,
            found=det3, accepted="u, v = e.begin, e.end; ids = get_events_for_edge(e); append(get_flow_event(u, start_ev, ..., True)); append(get_flow_event(v, end_ev, ..., False)); flow_id += 1")
     gf = cp.func("CriticalPathAnalysis.overlay_critical_path_analysis.get_flow_event")
@@ -212,11 +215,17 @@ def _overlay(db, chk, cp):
     chk.ob(rule, "a flow event sits on the process and thread of the event it is attached to", kws.get("pid") == "event['pid']" and kws.get("tid") == "event['tid']" and kws.get("id") == "flow_id" and kws.get("is_start") == "is_start",
            cp.loc(gf), found={k: kws.get(k) for k in ("id", "pid", "tid", "is_start")}, accepted={"id": "flow_id", "pid": "event['pid']", "tid": "event['tid']", "is_start": "is_start"})
     gev = cp.func("CPGraph.get_events_for_edge")
-    t = ast.unparse(gev).replace(" ", "")
-    chk.ob(rule, "get_events_for_edge maps (begin, end) node ids to the events owning those nodes", "start_node,end_node=(edge.begin,edge.end)" in t and "self.node_list[start_node].ev_idx" in t and "self.node_list[end_node].ev_idx" in t,
+    r1 = H.match_seq(["$a, $b = (edge.begin, edge.end)", "return (int(self.node_list[$a].ev_idx), int(self.node_list[$b].ev_idx))"], [x for x in gev.body if not isinstance(x, ast.Expr)])
+    r2 = [n for n, b_ in H.find_match("return (int(self.node_list[edge.begin].ev_idx), int(self.node_list[edge.end].ev_idx))", gev)]
+    chk.ob(rule, "get_events_for_edge maps (begin, end) node ids to the events owning those nodes", r1 is not None or bool(r2),
            cp.loc(gev), found=[ast.unparse(s)[:100] for s in gev.body if not isinstance(s, ast.Expr)], accepted="(node_list[edge.begin].ev_idx, node_list[edge.end].ev_idx)")
     ext = [c for c in walk_no_nested(f) if isinstance(c, ast.Call) and isinstance(c.func, ast.Attribute) and c.func.attr == "extend" and "traceEvents" in ast.unparse(c.func.value)]
-    chk.ob(rule, "flow events are appended after the source events", len(ext) == 1 and H.name_id(ext[0].args[0]) == "flow_events", where, found=[ast.unparse(c) for c in ext], accepted="overlaid_trace['traceEvents'].extend(flow_events)")
+    fl_var = None
+    if len(lp) == 1:
+        rr = H.find_match("$fl.append(get_flow_event($$a, $$b, $$c, $$d, is_start=True))", lp[0])
+        fl_var = rr[0][1]["__mv_fl"] if rr else None
+    chk.ob(rule, "flow events are appended after the source events", len(ext) == 1 and fl_var is not None and H.name_id(ext[0].args[0]) == fl_var and _root_chain(ext[0].func.value)[0] in al, where,
+           found=[ast.unparse(c) for c in ext], accepted="overlaid_trace['traceEvents'].extend(flow_events)")
     chk.floor(rule, 6)
 
 
@@ -250,7 +259,9 @@ def _compression(db, chk, tf, tm, tp):
     okn = len(rep) == 1 and isinstance(rep[0].args[1], ast.JoinedStr) and ast.unparse(rep[0].args[1]).endswith(".json'")
     chk.ob(rule, "the counters file keeps the source's suffix (.json stays .json, .json.gz stays .json.gz)", okn, db.mod("hta.trace_analysis").loc(g), found=[ast.unparse(c) for c in rep], accepted=".replace('.json', f'{suffix}.json')")
     o = db.mod("hta.analyzers.critical_path_analysis").func("CriticalPathAnalysis.overlay_critical_path_analysis")
-    on = [ast.unparse(v) for t, v, s in H.assignments(o) if H.name_id(t) == "output_file"]
+    wcall = [c for c in ast.walk(o) if isinstance(c, ast.Call) and call_name(c).endswith("write_raw_trace")]
+    ofv = H.name_id(wcall[0].args[0]) if len(wcall) == 1 and wcall[0].args else None
+    on = [ast.unparse(v) for t, v, s in H.assignments(o) if H.name_id(t) == ofv]
     chk.ob(rule, "the overlay file keeps the source's file name (and suffix) behind its prefix", len(on) == 1 and "t.trace_files[rank].split('/')[-1]" in on[0] and "overlaid_critical_path_" in on[0], "hta/analyzers/critical_path_analysis.py",
            found=on, accepted="'overlaid_critical_path_' + <source file name>")
     chk.floor(rule, 5)
